@@ -151,21 +151,43 @@ def check_dotdot(ctx, prog):
     ctx.analysed(rp)
     role = 'replace:search restarts after each replaced occurrence'
     in_loop = set(id(e) for lp in ir.walk_stmts(rp['body']) if lp.get('k') in ('for', 'while', 'do') for e in ir.stmt_exprs(lp['body']))
-    searches = [e for e in fn_exprs(rp) if e.get('k') == 'call' and e.get('pq') == 'asl::String::indexOf' and len(e.get('a', [])) == 2 and id(e) in in_loop and strip(e['a'][1]).get('k') == 'var']
+    def search_start(e):
+        """e searches the pattern from a start position: indexOf(a, i) itself, or a helper that forwards one of its
+        parameters as the start of an indexOf and returns match positions without arithmetic -> the start argument"""
+        if e.get('k') != 'call':
+            return None
+        if e.get('pq') == 'asl::String::indexOf' and len(e.get('a', [])) == 2:
+            return e['a'][1]
+        if e.get('pq') == 'asl::String::indexOf' or not e.get('fn'):
+            return None
+        for h in prog.fn(e['fn'], e.get('sig')):
+            if not h.get('body') or h is rp:
+                continue
+            rets = [s_['e'] for s_ in ir.walk_stmts(h['body']) if s_.get('k') == 'return' and s_.get('e') is not None]
+            if any(w.get('k') == 'bin' and w.get('op') in ('+', '-', '*') for r_ in rets for w in walk_expr(q.expand(h, r_))):
+                return None
+            for x in fn_exprs(h):
+                if x.get('k') == 'call' and x.get('pq') == 'asl::String::indexOf' and len(x.get('a', [])) == 2 and strip(x['a'][1]).get('vk') == 'param':
+                    ids = [p_['id'] for p_ in h['params']]
+                    if strip(x['a'][1])['id'] in ids and ids.index(strip(x['a'][1])['id']) < len(e.get('a', [])):
+                        return e['a'][ids.index(strip(x['a'][1])['id'])]
+        return None
+    searches = [e for e in fn_exprs(rp) if id(e) in in_loop and search_start(e) is not None and strip(search_start(e)).get('k') == 'var']
     if len(searches) != 1:
-        ctx.undecided('C09.dotdot', rp['pq'], role, fwhere(rp), 'no single indexOf(a, i) inside the replace loop')
+        ctx.undecided('C09.dotdot', rp['pq'], role, fwhere(rp), 'no single search of the pattern from a variable position inside the replace loop')
         return
-    iv = strip(searches[0]['a'][1])['id']
+    iv = strip(search_start(searches[0]))['id']
     pat = rp['params'][0]['id']
+    is_search = lambda x: strip(x).get('k') == 'call' and (strip(x).get('pq') == 'asl::String::indexOf' or search_start(strip(x)) is not None)
     # variables that receive match positions (results of indexOf on the pattern)
     jvars = set()
     for s_ in ir.walk_stmts(rp['body']):
         if s_.get('k') == 'decl':
             for v in s_['vars']:
-                if v.get('init') is not None and strip(v['init']).get('k') == 'call' and strip(v['init']).get('pq') == 'asl::String::indexOf':
+                if v.get('init') is not None and is_search(v['init']):
                     jvars.add(v['id'])
     for e in fn_exprs(rp):
-        if e.get('k') == 'bin' and e.get('op') == '=' and strip_lv(e['x']).get('k') == 'var' and strip(e['y']).get('k') == 'call' and strip(e['y']).get('pq') == 'asl::String::indexOf':
+        if e.get('k') == 'bin' and e.get('op') == '=' and strip_lv(e['x']).get('k') == 'var' and is_search(e['y']):
             jvars.add(strip_lv(e['x'])['id'])
 
     # "match position or end of text": a local selected from a match variable without arithmetic is a match position too
